@@ -308,11 +308,63 @@ def justify_rules(run, fx):
                             tg.append(l)
             a_tgt.append(tg)
         d_args = [j.render(j.strip_all_casts(d['args'][0])) for d in dels]
-        ok = all(any(t in d_args for t in tg) for tg in a_tgt) and sorted(d_args) == ['this->m_first', 'this->m_last']
+        ok = all(any(t in d_args for t in tg) for tg in a_tgt)
         if ok:
             run.held('LINEENDPAIR', 'each sentinel removed', j.loc(dels[0]), 'addLineEnd results kept in %s, delLineEnd(%s)' % (a_tgt, d_args))
         else:
             run.violated('LINEENDPAIR', 'each sentinel removed', j.loc(dels[0]), 'addLineEnd results are stored in %s but delLineEnd receives %s' % (a_tgt, d_args))
+        # the sentinel handed to delLineEnd is read from where it was put: if that is a field (m_first / m_last), nothing that can
+        # rewrite the field runs between the addLineEnd that filled it and the delLineEnd that reads it
+        from .util import reaches_avoiding, field_writes, callers_of
+        fw = field_writes(fx)
+        for d_ in dels:
+            arg = j.strip_all_casts(d_['args'][0])
+            if arg['k'] != 'MemberExpr' or arg.get('d') not in ('graphite2::Segment::m_first', 'graphite2::Segment::m_last'):
+                continue
+            fld = arg['d']
+            writers = {fn_.q for fn_, e_, k_ in fw.get(fld, [])}
+            may = set(writers)
+            for _ in range(6):
+                grow = {fn_.q for q_ in list(may) for fn_, e_ in callers_of(fx, q_)} - may
+                if not grow:
+                    break
+                may |= grow
+            stores = [e for e in _assign_blocks(j, 'this->' + fld.split('::')[-1]) if any((y.get('fq') or '') == 'graphite2::Segment::addLineEnd' for y in j.walk(e['c'][1]))]
+            inst = 'sentinel in %s survives to its removal' % fld.split('::')[-1]
+            if not stores:
+                continue
+            offenders = []
+            for c_ in calls_in(j):
+                fq = c_.get('fq') or ''
+                if fq not in may or fq in ('graphite2::Segment::addLineEnd', 'graphite2::Segment::delLineEnd'):
+                    continue
+                if fq == 'graphite2::Silf::runGraphite':
+                    continue        # the passes run here are >= positionPass: they cannot insert or delete slots (C03 NOMUTPOS), the only way a pass writes the head/tail
+                if any(reaches_avoiding(j, s_, c_) for s_ in stores) and reaches_avoiding(j, c_, d_):
+                    offenders.append(c_)
+            if offenders:
+                c_ = offenders[0]
+                # the shortest call chain from the offending callee to a function that writes the field directly
+                via, seen_, frontier = None, {c_['fq']}, [[c_['fq']]]
+                while frontier and via is None:
+                    nxt = []
+                    for path in frontier:
+                        if path[-1] in writers and len(path) > 1:
+                            via = path
+                            break
+                        for g in fx.fns_named(path[-1]):
+                            for y in calls_in(g):
+                                if y.get('fq') and y['fq'] in may and y['fq'] not in seen_:
+                                    seen_.add(y['fq'])
+                                    nxt.append(path + [y['fq']])
+                    frontier = nxt
+                writers = set(via[-1:]) if via else writers
+                run.violated('LINEENDPAIR', inst, j.loc(c_), 'Segment::justify stores the line-end sentinel in %s, calls %s -- which can rewrite %s (through %s) -- and then hands '
+                             'whatever %s holds to delLineEnd (line %s): on a font with line-end contextuals (Silf flags bit 0) and a direction that makes positionSlots reverse '
+                             'the line, a real slot is freed while it is linked and the sentinel stays in the stream'
+                             % (fld.split('::')[-1], c_['fq'], fld.split('::')[-1], ' -> '.join(x.split('::')[-1] for x in via) if via else sorted(writers)[:3], fld.split('::')[-1], d_.get('ln')))
+            else:
+                run.held('LINEENDPAIR', inst, j.loc(d_), 'no call that can rewrite the field between the store of the sentinel and delLineEnd')
         # addLineEnd(NULL) appends after m_last: m_last must still be the saved tail when addLineEnd runs
         lw = [e for e in _assign_blocks(j, 'this->m_last')]
         bad = None
